@@ -12,6 +12,11 @@ Driver of the C15 models.  Ops (component `c15`):
   hread <slot>                  → <buckets> <count> <sum>
   hreadns <slot>                → <buckets> <count>    (order-only stream: sums are not compared)
   rnew <n> <d>                  → ok                   Distribution::new_summary
+  rnewcfg <count|~> <dur|~>     → <n> <d>              PrometheusBuilder::{set_bucket_count, set_bucket_duration} (or neither) →
+                                                       DistributionBuilder::get_distribution → new_summary; answers the window
+  runit <minU>                  → ok                   value scale of the following radd/rquant: min_possible in value units
+  rquant <now> <num> <den>      → none | zero | <v>    snapshot(now).quantile(num/den), 0 < num < den: the retained sample whose
+                                                       bin answers
   radd <v>@<t>,…                → ok                   Distribution::record_samples (summary arm)
   rsnap <now>                   → <count> <sum> <retained> <sorted retained samples> <min()> <max()>
   rsnapc <now>                  → <count> <sum> <retained> <quantile token: zero|some>
@@ -25,6 +30,7 @@ open MetricsVerif.Driver MetricsVerif.Histogram MetricsVerif.Rolling MetricsVeri
 structure St where
   hists : List (Nat × Hist) := []
   summ : Option SummaryDist := none
+  minU : Nat := 0
 
 def fvTok (s : String) : Option FV :=
   match s with
@@ -89,6 +95,23 @@ def handle (st : St) (args : List String) : Option (St × String) :=
     let d ← d.toNat?
     if n == 0 || d == 0 then none else
     pure ({ st with summ := some (SummaryDist.new n d) }, "ok")
+  | ["rnewcfg", count, dur] => do
+    let count ← optTok (fun s => s.toNat?) count
+    let dur ← optTok (fun s => s.toNat?) dur
+    if count == some 0 || dur == some 0 then none else
+    let (n, d) := DistBuilder.windowOf count dur
+    pure ({ st with summ := some (SummaryDist.new n d) }, s!"{n} {d}")
+  | ["runit", m] => do
+    pure ({ st with minU := (← m.toNat?) }, "ok")
+  | ["rquant", now, num, den] => do
+    let s ← st.summ
+    let num ← num.toNat?
+    let den ← den.toNat?
+    if num == 0 || den ≤ num then none else
+    match snapshotQuantile st.minU s.rolling (← now.toNat?) num den with
+    | .none => pure (st, "none")
+    | .zero => pure (st, "zero")
+    | .bin v => pure (st, showFV v)
   | ["radd", samples] => do
     let s ← st.summ
     let samples ← listTok sampleTok samples
